@@ -33,9 +33,11 @@ def is_k(sv):
 
 
 class PathResult:
-    __slots__ = ('lits', 'events', 'ret', 'stores', 'blocks', 'cut')
+    __slots__ = ('lits', 'events', 'ret', 'stores', 'blocks', 'cut', 'locals', 'loop_init')
 
-    def __init__(self, lits, events, ret, stores, blocks, cut):
+    def __init__(self, lits, events, ret, stores, blocks, cut, locals_=None, loop_init=None):
+        self.locals = locals_ or {}     # named locals of the analysed function at the end of the path
+        self.loop_init = loop_init or {}  # loop variable -> value on loop entry (loop_symbolic mode)
         self.lits = lits          # list of (sv, taken, fn, bi) ; taken = ('eq', v) | ('ne', (v1, v2, ..))
         self.events = events      # list of (name, args, fn, bi)
         self.ret = ret
@@ -45,9 +47,10 @@ class PathResult:
 
 
 class State:
-    __slots__ = ('env', 'ov', 'lits', 'events', 'known', 'cut')
+    __slots__ = ('env', 'ov', 'lits', 'events', 'known', 'cut', 'loop_init')
 
     def __init__(self):
+        self.loop_init = {}
         self.env = {}
         self.ov = {}
         self.lits = []
@@ -63,6 +66,7 @@ class State:
         s.events = list(self.events)
         s.known = dict(self.known)
         s.cut = self.cut
+        s.loop_init = dict(self.loop_init)
         return s
 
 
@@ -72,7 +76,9 @@ class Budget(Exception):
 
 class Symx:
     def __init__(self, facts, inline=(), pure=(), models=None, spec=None, max_paths=20000, max_depth=5,
-                 inline_all_local=False, no_inline=()):
+                 inline_all_local=False, no_inline=(), loop_symbolic=False):
+        self.loop_symbolic = loop_symbolic
+        self._loops = {}
         self.fx = facts
         self.inline = set(inline)
         self.pure = set(pure)
@@ -103,7 +109,11 @@ class Symx:
                 # a reference to a local of the finished body (promoted constants): keep the value
                 ret = ('valref', self._read(st2, ret[1], ret[2]))
             stores = {k: v for k, v in st2.ov.items() if k[0][0] != 'local'}
-            out.append(PathResult(st2.lits, st2.events, ret, stores, None, st2.cut))
+            named = {}
+            for i, l in enumerate(fn.locals):
+                if l.get('n') and (frame, i) in st2.env:
+                    named[l['n']] = self._read(st2, ('local', frame, i), ())
+            out.append(PathResult(st2.lits, st2.events, ret, stores, None, st2.cut, named, st2.loop_init))
         return out
 
     # ------------------------------------------------------------------ internals
@@ -436,6 +446,19 @@ class Symx:
                     break
                 visited = visited + (bi,)
                 b = fn.blocks[bi]
+                if self.loop_symbolic and depth == 0:
+                    hv = self._loop_info(fn).get(bi)
+                    if hv:
+                        # loop header: the loop-carried locals become symbols, so that the body is
+                        # read as a function of the loop variables (not of their initial values)
+                        st.env = dict(st.env)
+                        for l in hv:
+                            nm = fn.local_name(l) or ('_%d' % l)
+                            init = st.env.get((frame, l))
+                            st.loop_init.setdefault(nm, init)
+                            st.env[(frame, l)] = ('sym', 'loop:' + nm)
+                            for k in [k for k in st.ov if k[0] == ('local', frame, l)]:
+                                del st.ov[k]
                 for s in b.stmts:
                     if s.kind == 'assign':
                         v = self._rvalue(fn, frame, st, s.rv)
@@ -525,6 +548,40 @@ class Symx:
                     break
                 bi = succ[0]
         return
+
+    def _loop_info(self, fn):
+        """header block -> locals assigned inside its natural loop"""
+        key = fn.nq
+        if key in self._loops:
+            return self._loops[key]
+        from cfg import cfg_of
+        cfg = cfg_of(fn)
+        info = {}
+        for u in range(cfg.n):
+            for h in cfg.succ[u]:
+                if cfg.dominates(h, u):
+                    # natural loop of back edge u -> h
+                    body = {h, u}
+                    work = [u]
+                    while work:
+                        x = work.pop()
+                        if x == h:
+                            continue
+                        for p in cfg.pred[x]:
+                            if p not in body:
+                                body.add(p)
+                                work.append(p)
+                    locs = info.setdefault(h, set())
+                    for bidx in body:
+                        blk = fn.blocks[bidx]
+                        for s in blk.stmts:
+                            if s.kind == 'assign' and not s.place.pr and fn.local_name(s.place.b):
+                                locs.add(s.place.b)
+                        t = blk.term
+                        if t.kind == 'call' and t.dest is not None and not t.dest.pr and fn.local_name(t.dest.b):
+                            locs.add(t.dest.b)
+        self._loops[key] = info
+        return info
 
     def _unreachable_block(self, fn, bi):
         b = fn.blocks[bi]
